@@ -2,7 +2,7 @@
    Statements only; proofs in Proof/SlipLemmas.v; model Model/Slip.v.
    [pdecode] is one call of the decoder on an octet list, [trace] the results of calling it again
    and again until the input is exhausted (both tied to rfc1055_decode by ./check C12). *)
-From Ufw Require Import Base.Bits Base.Errno Model.Endpoints Model.Slip Proof.LenpLemmas Proof.SlipLemmas Proof.SlipOperational Proof.SlipFaults.
+From Ufw Require Import Base.Bits Base.Errno Model.Endpoints Model.Slip Proof.LenpLemmas Proof.SlipLemmas Proof.SlipOperational Proof.SlipFaults Proof.SlipEncodeFaults.
 Local Open Scope N_scope.
 
 (* decoding the encoding returns exactly the payload, signals end-of-frame, leaves what follows *)
@@ -130,3 +130,13 @@ Theorem C12_decode_refines : forall sof st s k rc st' s' k', answers s -> no_ils
     end.
 Proof. exact slip_decode_op_refines. Qed.
 Print Assumptions C12_decode_refines.
+
+(* one call of the operational ENCODER under every source script and every sink that takes what it is given or fails: what reached the
+   sink is a prefix of the specified encoding of the octets taken from the source; success = the whole frame *)
+Theorem C12_encode_under_faults : forall sof s k e s' k', answers s -> sink_answers k ->
+  slip_encode_op sof s k = Some (e, s', k') ->
+  exists consumed sent, s_stream s = consumed ++ s_stream s' /\ k_got k' = k_got k ++ sent /\
+    (e = None -> sent = slip_encode sof consumed) /\
+    (forall err, e = Some err -> exists rest, slip_encode sof consumed = sent ++ rest).
+Proof. exact slip_encode_op_spec. Qed.
+Print Assumptions C12_encode_under_faults.
